@@ -43,7 +43,9 @@ PInit(finite, len) ==
     pos |-> -1, frozenRun |-> 0,
     stoppedSeen |-> FALSE,
     finite |-> finite, len |-> len, adv |-> 0,   \* natural end: frames of audio available / callbacks spent advancing
-    held |-> FALSE ]      \* the sound has been kept from advancing at some time (no deadline then)
+    held |-> FALSE,       \* the sound has been kept from advancing at some time (no deadline then)
+    starved |-> FALSE ]   \* a streaming sound whose decoder delivers nothing (any more): it is silent and does not advance
+                          \* whatever its state, so the gain classes say nothing - the life cycle must go on all the same
 
 Win(c) == (c - 1)..(c + 1)
 
@@ -86,17 +88,17 @@ Explain(a, e, k, m) ==
     [] s = "Paused"   -> IF o = "Paused" THEN {stay} ELSE {}
     [] s = "Stopped"  -> IF o = "Stopped" THEN {stay} ELSE {}
     [] s = "Pausing"  -> (IF o = "Pausing" /\ k <= a.fe THEN {stay} ELSE {}) \cup
-                         (IF o = "Paused" /\ k \in Win(a.fe) /\ e.g1 = 0 THEN {AS("Paused", NoT, NoT, 0)} ELSE {})
+                         (IF o = "Paused" /\ k \in Win(a.fe) /\ (m.starved \/ e.g1 = 0) THEN {AS("Paused", NoT, NoT, 0)} ELSE {})
     [] s = "Stopping" -> (IF o = "Stopping" /\ k <= a.fe THEN {stay} ELSE {}) \cup
-                         (IF o = "Stopped" /\ k \in Win(a.fe) /\ e.g1 = 0 THEN {AS("Stopped", NoT, NoT, 0)} ELSE {})
+                         (IF o = "Stopped" /\ k \in Win(a.fe) /\ (m.starved \/ e.g1 = 0) THEN {AS("Stopped", NoT, NoT, 0)} ELSE {})
     [] s = "Resuming" -> (IF o = "Resuming" /\ k <= a.fe THEN {stay} ELSE {}) \cup
-                         (IF o = "Playing" /\ k \in Win(a.fe) /\ e.g1 = 2 THEN {AS("Playing", NoT, NoT, 0)} ELSE {})
+                         (IF o = "Playing" /\ k \in Win(a.fe) /\ (m.starved \/ e.g1 = 2) THEN {AS("Playing", NoT, NoT, 0)} ELSE {})
     [] s = "WaitingToResume" ->
          IF a.wu = NoT
          THEN (IF o = "Stopped" THEN {AS("Stopped", NoT, NoT, 0)} ELSE {})      \* the clock does not exist: cancelled
          ELSE (IF o = "WaitingToResume" /\ k <= a.wu THEN {stay} ELSE {}) \cup
               (IF o = "Resuming" /\ k \in Win(a.wu) THEN {AS("Resuming", k + a.wd, NoT, 0)} ELSE {}) \cup
-              (IF o = "Playing" /\ k \in Win(a.wu) /\ a.wd = 0 /\ e.g1 = 2 THEN {AS("Playing", NoT, NoT, 0)} ELSE {})
+              (IF o = "Playing" /\ k \in Win(a.wu) /\ a.wd = 0 /\ (m.starved \/ e.g1 = 2) THEN {AS("Playing", NoT, NoT, 0)} ELSE {})
 
 \* shape of the gain while a fade runs
 GainOK(a, e) ==
@@ -105,7 +107,7 @@ GainOK(a, e) ==
     [] OTHER -> TRUE
 
 After(m, e) == ApplyAll(m.poss, LastPerKind(m.pend), m.k + 1)
-Succ(m, e)  == UNION { IF GainOK(a, e) THEN Explain(a, e, m.k + 1, m) ELSE {} : a \in After(m, e) }
+Succ(m, e)  == UNION { IF m.starved \/ GainOK(a, e) THEN Explain(a, e, m.k + 1, m) ELSE {} : a \in After(m, e) }
 \* the callback was spent entirely in a non-advancing state, under every explanation
 FullyFrozen(m, e) == e.state \in Frozen /\ \A a \in After(m, e) : a.st \in Frozen
 
@@ -114,7 +116,7 @@ Check(m, e) ==
          IF e.panicked THEN "no_panic"
          ELSE IF m.stoppedSeen /\ e.state # "Stopped" THEN "stopped_is_final"
          ELSE IF Succ(m, e) = {} THEN
-              (IF \E a \in After(m, e) : ~GainOK(a, e) /\ Explain(a, e, m.k + 1, m) # {} THEN "fade_monotone"
+              (IF \E a \in After(m, e) : ~m.starved /\ ~GainOK(a, e) /\ Explain(a, e, m.k + 1, m) # {} THEN "fade_monotone"
                ELSE IF \E a \in After(m, e), g \in {0, 2} : Explain(a, [e EXCEPT !.g1 = g], m.k + 1, m) # {}
                     THEN "fade_ends_exactly_at_silence_or_unity"
                ELSE "lifecycle")
